@@ -239,31 +239,6 @@ func containsAwait(e *xexpr) bool {
 	return containsAwait(e.a) || containsAwait(e.b) || containsAwait(e.c)
 }
 
-// known finding C13-D10: the "let [" guard of the printer does not cover the head of a for / for-in loop, so
-// for-loop initialisers that start with let[ are kept out of the glue stream (they stay in the correspondence:
-// the model follows the code) and the finding has its own replay
-func startsWithLetIndex(e *xexpr) bool {
-	for e != nil {
-		switch e.k {
-		case xIndex:
-			if e.a.k == xId && e.a.s == "let" {
-				return true
-			}
-			e = e.a
-		case xDot, xCall, xCond, xBin:
-			e = e.a
-		case xUn:
-			if e.op != js_ast.UnOpPostDec && e.op != js_ast.UnOpPostInc {
-				return false
-			}
-			e = e.a
-		default:
-			return false
-		}
-	}
-	return false
-}
-
 func containsIn(e *xexpr) bool {
 	if e == nil {
 		return false
@@ -656,14 +631,14 @@ func runC13(seed uint64, n int, tier string, outDir string) []*Stats {
 		if containsIn(e) || i%5 == 0 {
 			for _, m := range modes {
 				full, init := printTreeForInit(e, m)
-				items = append(items, fmt.Sprintf("(%s,true,false,%s,%s)", CBool(m), e.coq(m), CBytes([]byte(init))))
+				items = append(items, fmt.Sprintf("(%s,true,true,%s,%s)", CBool(m), e.coq(m), CBytes([]byte(init))))
 				st.Note("print-tree-forbid-in", init+fmt.Sprint(m), containsIn(e))
 				other := ""
 				if idOnly(e) {
 					other, _ = printTreeForInit(e, !m)
 					other = strings.TrimSuffix(strings.TrimSuffix(other, "\n"), ";")
 				}
-				if !containsAwait(e) && !startsWithLetIndex(e) {
+				if !containsAwait(e) {
 					printed = append(printed, printedTree{full, m, other, i < nGrid})
 				}
 			}
